@@ -10,7 +10,7 @@ THEOREMS = ["C30_build_total",
             "C30_trivia_partition", "C30_trivia_partition_refuted", "C30_trivia_partition_partial",
             "C30_emit_roundtrip_id", "C30_emit_roundtrip_id_refuted", "C30_emit_roundtrip_id_partial",
             "C30_print_file_roundtrip", "C30_print_file_roundtrip_refuted", "C30_print_file_roundtrip_partial",
-            "C30_per_decl_concat", "C30_per_decl_concat_refuted"]
+            "C30_per_decl_concat_refuted"]
 AXIOMS_OK = []
 TRUSTED = ["hand-written Gallina model of trivia.go (buildTriviaIndex, walkScope, walkDecl, walkFused, splitDetached) and of the "
            "token-level replay of the index in round-trip mode (Model/Trivia.v); token.Cursor push-back is modelled by handing "
